@@ -46,7 +46,7 @@ def run(run):
     mc_families(run, quick)
     mc_macwilliams(run)
     fams = {"hamming", "golay", "repetition", "spc", "rm", "cyclic", "cyclic_named", "bch", "rs"}
-    cat = fec.catalogue(run.tier, rng, families=fams, long_bch=True)
+    cat = fec.catalogue(run.tier, rng, families=fams, long_bch=True, all_divisors=True)
     if run.only:
         cat = [e for e in cat if e.config() == run.only.get("config")]
     run.log("catalogue: %d objects" % len(cat))
